@@ -32,6 +32,7 @@ CHUNK = 1500
 N_RANDOM = {'quick': 320, 'thorough': 40000}
 N_LONG = {'quick': 3, 'thorough': 16}
 N_MANY = {'quick': 6, 'thorough': 60}
+N_OVERLAP = {'quick': 40, 'thorough': 4000}
 BUDGET_S = {'quick': 200, 'thorough': 3600}
 
 _mon = Monitor()
@@ -67,6 +68,9 @@ def units(tier):
     # site sets with hundreds to thousands of sites (indices beyond 127 / 255 / 999)
     for i in range(N_MANY[tier]):
         out.append({'k': 'manysites', 'i': i})
+    # overlapping site spheres (per-label radii) with an inner fraction < 1: inner site != assigned site
+    for i in range(N_OVERLAP[tier]):
+        out.append({'k': 'overlap', 'i': i})
     return out
 
 
@@ -221,6 +225,46 @@ def run_pipeline(traj, st, R, f, ctx, what, has_change):
         return None
 
 
+def run_overlap(unit, rng, ctx):
+    """Sites of two labels whose spheres overlap pairwise; atoms wander in and around the pairs."""
+    from pymatgen.core import Structure
+
+    kind, rot, m = geom.random_lattice(rng, lo=7.0, hi=11.0)
+    inv = np.linalg.inv(m)
+    npair = int(rng.integers(1, 4))
+    RA, RB = float(rng.uniform(0.5, 0.9)), float(rng.uniform(0.5, 0.9))
+    cent = geom.separated_points(rng, m, npair, 2 * (RA + RB) + 0.5, face_prob=0.3)
+    if cent is None:
+        raise Skip('geometry')
+    off = gen.random_unit_vectors(rng, npair) * rng.uniform(0.2, 0.9, size=(npair, 1)) * min(RA, RB)
+    sites = np.concatenate([cent, np.mod(cent + off @ inv, 1)])
+    labels = ['A'] * npair + ['B'] * npair
+    perm = rng.permutation(2 * npair)
+    sites, labels = sites[perm], [labels[i] for i in perm]
+    f = float(rng.choice([0.3, 0.5, 0.8]))
+    T, N = int(rng.integers(5, 60)), int(rng.integers(1, 4))
+    which = rng.integers(2 * npair, size=(T, N))
+    stay = rng.uniform(size=(T, N)) < 0.5
+    for t in range(1, T):
+        which[t] = np.where(stay[t], which[t - 1], which[t])
+    pos = np.mod(sites[which] + (gen.random_unit_vectors(rng, T * N).reshape(T, N, 3) * rng.uniform(0, 1.3, size=(T, N, 1)) * max(RA, RB)) @ inv, 1)
+    traj = gen.make_trajectory(m, gen.species_objects(['Li'] * N + ['S']), np.concatenate([pos, np.full((T, 1, 3), 0.123)], axis=1))
+    st = Structure(lattice=traj.get_lattice(), species=['Li'] * len(sites), coords=sites, labels=labels)
+    what = f'overlap {kind}{"/rot" if rot else ""} T={T} N={N} pairs={npair} f={f}'
+    try:
+        tr = traj.transitions_between_sites(sites=st, floating_specie='Li', site_radius={'A': RA, 'B': RB}, site_inner_fraction=f)
+    except Exception as exc:  # noqa: BLE001
+        s0 = None
+        ctx.count('overlap_pipeline_raised:' + type(exc).__name__)
+        ctx.case(None, False)
+        return
+    s_, i_ = np.asarray(tr.states), np.asarray(tr.inner_states)
+    check_transitions(tr, ctx, what)
+    ctx.count('overlap_systems')
+    ctx.count('frames_with_inner_site_other_than_assigned_site', int(np.sum((i_ >= 0) & (i_ != s_))))
+    ctx.case(signature(s_, i_), bool(np.any(s_[1:] != s_[:-1])), sample={'kind': 'overlap', 'lattice': kind, 'T': T, 'pairs': npair, 'f': f, 'inner_ne_state_frames': int(np.sum((i_ >= 0) & (i_ != s_)))})
+
+
 def run_unit(unit, rng, ctx):
     k = unit['k']
     if k in ('exh', 'single'):
@@ -250,6 +294,8 @@ def run_unit(unit, rng, ctx):
                 ctx.count('histories_inner_constant_but_site_changes', nt and bool(np.all(in_true[:, j] == in_true[0, j])))
                 ctx.count('histories_inner_only_changes', (not nt) and bool(np.any(in_true[1:, j] != in_true[:-1, j])))
         return
+    if k == 'overlap':
+        return run_overlap(unit, rng, ctx)
     # random multi-atom pipeline systems
     big = ctx.tier == 'thorough' and unit['i'] % 10 == 0
     T = int(rng.integers(200, 2000)) if big else int(rng.integers(2, 80))
